@@ -123,7 +123,7 @@ func refNumber(text string) float64 {
 	return f
 }
 
-var genNames = []string{"cal", "a/b/c", "ел 2", "x,y", `q"t`, "coca-cola", "a:b", "a b c", "very/long/category/path/of/a/food/x", "100% juice", "fat(g)", "日本", "fish & chips", "omega<3", "a>b", "mac'n'cheese", "vitamin b+c", "two  blanks", "tab\tinside"}
+var genNames = []string{"cal", "a/b/c", "ел 2", "x,y", `q"t`, "coca-cola", "a:b", "a b c", "very/long/category/path/of/a/food/x", "100% juice", "fat(g)", "日本", "fish & chips", "omega<3", "a>b", "mac'n'cheese", "vitamin b+c", "two  blanks", "tab\tinside", `c:\temp\nuts`, `half\\half caf\u00e9`} // (the last two: backslashes are letters like any other, quoted or not)
 var genNums = []string{"1", "+4", "-4", ".5", "5.", "1e3", "1E-2", "0.1", "1.005", "2.675", "123456789.125", "1e-7", "1e21", "007", "-0", "0.30000000000000004", "4.35", "9007199254740993"}
 
 func (f absFile) String() string {
